@@ -21,6 +21,28 @@ def _num(v):
     return float(v)
 
 
+class GenericEnv(dict):
+    """Deterministic generic assignment for concrete items: every name gets a non-zero multiple of 1/8 in [-3, 3] the first
+    time it is asked for (and keeps it)."""
+
+    def __init__(self, seed=1):
+        super().__init__()
+        self.seed = seed
+
+    def __contains__(self, k):
+        return True
+
+    def __missing__(self, k):
+        import hashlib
+        h = int(hashlib.md5(("%s/%s" % (self.seed, k)).encode()).hexdigest()[:8], 16)
+        v = ((h % 47) - 23) / 8.0
+        self[k] = v if v != 0 else 0.625
+        return self[k]
+
+    def get(self, k, default=None):
+        return self[k]
+
+
 class Vals:
     """Source of input values: fresh symbols (symbolic run) or numbers from an assignment."""
 
